@@ -8,7 +8,8 @@ PROPS["C09"] = dict(
           "cardinals, unreduced azimuths (+-360k, 450, -270); courses overshooting a pole by 0.02..9 quarter meridians (|mu2| up to 900 deg) with either sign of "
           "s12; end points within 1e-12..1e-3 (relative) of a pole on either side; east-west courses of up to 20 circuits; with and without LONG_UNROLL. Kernels: "
           "Dsn, Datan, Dasinh, Dh, Dlam, Dp0Dpsi, Dsin, h at equal / 1-3 ulp apart / relative 1e-15..0.1 apart / opposite-sign / independent arguments over tan of "
-          "uniform angles, 1e-12..1, 1..1e17, 0, +-1, 1e+-200, +-inf; DParametric, DIsometric, DRectifying on the latitude strata above. non-trivial = finite result; "
+          "uniform angles, 1e-12..1, 1..1e17, 0, +-1, 1e+-200, +-inf; DParametric, DIsometric, DRectifying on the latitude strata above; DClenshaw (sine and cosine, divided and plain) on "
+          "random coefficient lists of length 0..8 with equal / 1e-12..1 apart / mirrored / independent angles. non-trivial = finite result; "
           "distinct = distinct (op, leading argument bits)"),
     tolerances={
         "s12, position (lat2/lon2 as metres north/east), azimuth (as displacement s12*d(azi))": "4 x 10 nm ('the error is about 10 nanometers', RhumbSolve(1) ACCURACY; doc page rhumb) x a/a_WGS84 x max(1, |s12|/10^7 m), never below 4 ulp of the output; direct problem: + 4 ulp(90 deg) of latitude propagated to the longitude (d lam12/d phi = lam12 tan phi); series solver: + 100|n|^7 relative (first neglected order of the 6th-order auxiliary-latitude series)",
@@ -22,7 +23,7 @@ PROPS["C09"] = dict(
     level_text=("Theorems over the reals about the formula models that the driver executes in binary64 against the private DAuxLatitude functions: Dsn, Datan, Dasinh, Dh "
                 "are the divided differences of sn, atan, asinh, h in every branch (with the confluent value at x = y), Dlam and Dp0Dpsi are the divided differences of "
                 "asinh(tan chi) w.r.t. chi and of asinh(h) w.r.t. asinh; DClenshaw (matrix recurrence) times Delta equals the difference of the two Clenshaw sums, for every "
-                "coefficient list; the two-step beyond-the-pole reduction of GenPosition returns, for every real mu2 and every normaliser satisfying the AngNormalize "
+                "coefficient list; (dclenshaw_dd, dclenshaw_diff, dclen_pair); the two-step beyond-the-pole reduction of GenPosition returns, for every real mu2 and every normaliser satisfying the AngNormalize "
                 "contract, the reflected rectifying latitude in [-90, 90] with the same sine, while the one-step form does not (counter-example mu2 = 300); the inverse "
                 "wrapper returns a course whose azimuth satisfies sin(azi) psi12 = cos(azi) lam12 with the right signs, s12 cos(azi) = R dmu and |lon12| <= 180 from the "
                 "AngDiff contract, sign of a +-180 tie as coded (finding F4). Table certificate: the series-mode AreaCoeffs table re-extracted from Rhumb.cpp is checked "
